@@ -23,7 +23,7 @@ REQUIRED = (["boundary-in-range-accepted", "reject-uint-above", "reject-uint-neg
              "reject-undefined-type-via-empty-array", "reject-wrong-kind", "fault-depth-0", "fault-depth-1", "fault-depth>=2",
              "fault-in-array-element", "fault-in-domain"]
             + ["sweep-uint%d" % n for n in (8, 128, 256)] + ["sweep-int%d" % n for n in (8, 128, 256)]
-            + ["spelling-json-int", "spelling-json-float", "spelling-dec-string", "spelling-hex-string", "spelling-neg-hex-string"])
+            + ["spelling-json-int", "spelling-json-float", "spelling-dec-string", "spelling-hex-string", "spelling-neg-hex-string", "spelling-json-bigint", "spelling-json-bigfloat"])
 
 
 def judge(case, obs):
@@ -73,9 +73,14 @@ def spellings(v):
     out = []
     if -(2**63) <= v < 2**64:
         out.append(("spelling-json-int", str(v)))
+    else:
+        # a bare integer beyond 64 bits: out of range stays must-reject whatever the spelling; in range it is unspecified
+        out.append(("spelling-json-bigint", str(v)))
     if abs(v) < 2**53:
         out.append(("spelling-json-float", "%d.0" % v))
         out.append(("spelling-json-float", "%de0" % v))
+    else:
+        out.append(("spelling-json-bigfloat", "%d.0" % v))
     out.append(("spelling-dec-string", '"%d"' % v))
     if v >= 0:
         out.append(("spelling-hex-string", '"0x%x"' % v))
